@@ -330,9 +330,11 @@ Definition parse_tag_head (l : list N) : option taghead :=
 Definition lookup_ctl (name : list N) : option ctl := find (fun c => list_eqb (ctl_name c) name) all_ctl.
 Definition parse_ctl (l : list N) : option ctl := match l with 46 :: name => lookup_ctl name | _ => None end.
 
-(* cddl.pest's control_name is an ORDERED choice of string literals: the first alternative that is a prefix wins *)
+(* cddl.pest's control_name (since 8d55c20): an atomic ORDERED choice of string literals - the first alternative that is a
+   prefix is taken, longer names are listed before their prefixes - followed by a negative lookahead for an identifier
+   continuation  !(("-" | ".")* (EALPHA | DIGIT)) : a registered name is not accepted as a mere prefix *)
 Definition peg_order : list ctl :=
-  [CSize; CBits; CRegexp; CPcre; CIregexp; CCbor; CCborseq; CWithin; CAnd; CLt; CLe; CGt; CGe; CEq; CNe; CDefault; CCat; CDet;
+  [CSize; CBits; CRegexp; CPcre; CIregexp; CCborseq; CCbor; CWithin; CAnd; CLt; CLe; CGt; CGe; CEq; CNe; CDefault; CCat; CDet;
    CPlus; CAbnfb; CAbnf; CFeature; CB64uSloppy; CB64cSloppy; CB64u; CB64c; CHexuc; CHexlc; CHex; CBase10; CPrintf; CJson; CJoin;
    CB32; CH32; CB45; CBitfield].
 
@@ -349,9 +351,27 @@ Fixpoint peg_ctl_in (cs : list ctl) (l : list N) : option (ctl * list N) :=
   | c :: r => match strip_prefix (ctl_name c) l with Some rest => Some (c, rest) | None => peg_ctl_in r l end
   end.
 
+(* EALPHA | DIGIT *)
+Definition is_id_char (c : N) : bool :=
+  ((65 <=? c) && (c <=? 90)) || ((97 <=? c) && (c <=? 122)) || (c =? 64) || (c =? 95) || (c =? 36) || is_digit c.
+
+(* ("-" | ".")* (EALPHA | DIGIT) at the front of l *)
+Fixpoint id_continues (l : list N) : bool :=
+  match l with
+  | [] => false
+  | c :: r => if (c =? 45) || (c =? 46) then id_continues r else is_id_char c
+  end.
+
 (* control_op = "." control_name, result: operator and the unread rest *)
 Definition peg_ctl (l : list N) : option (ctl * list N) :=
-  match l with 46 :: r => peg_ctl_in peg_order r | _ => None end.
+  match l with
+  | 46 :: r =>
+      match peg_ctl_in peg_order r with
+      | Some (c, rest) => if id_continues rest then None else Some (c, rest)
+      | None => None
+      end
+  | _ => None
+  end.
 
 (* ---------------------------------------------------------------------- identifiers and markers *)
 Definition parse_ident (l : list N) : option (socket * list N) :=
